@@ -109,26 +109,74 @@ structure Outcome where
   files : List (String × String)
   deriving Repr, DecidableEq
 
-def totalRecords (pending : List (String × List String)) : Nat :=
-  pending.foldl (fun n p => n + p.2.length) 0
+def totalRecords (pending : List Pend) : Nat :=
+  pending.foldl (fun n p => n + (match p with | .file _ recs => recs.length | .assign _ _ => 0)) 0
 
-/-- initial state: command-line files (or standard input when there are none), plus other readable files -/
-def initState (p : Prog) (files : List File) (stdin : String) (extra : List File) : St :=
-  { funcs := p.funcs
-    pending := if files.isEmpty then [("-", splitRecords stdin)]
-               else files.map fun f => (f.name, splitRecords f.content)
-    fsys := files ++ extra
-    ranges := List.replicate p.rules.length false }
+/-- a command-line operand: an input file or a `var=value` assignment (value after escape processing) -/
+inductive Operand where
+  | file (f : File)
+  | assign (x : String) (v : String)
+  deriving Repr, Inhabited
 
-def runWith (fuel : Nat) (p : Prog) (files : List File) (stdin : String) (extra : List File) :
-    Except Err Outcome :=
-  let s0 := initState p files stdin extra
+/-- everything the command line and the environment contribute to a run -/
+structure Invocation where
+  /-- `-F sepstring` -/
+  fsOpt : Option String := none
+  /-- `-v var=value` assignments, in command-line order -/
+  vars : List (String × String) := []
+  operands : List Operand := []
+  stdin : String := ""
+  /-- other files `getline < name` can open -/
+  extra : List File := []
+  deriving Inhabited
+
+def operandFiles : List Operand → List File
+  | [] => []
+  | .file f :: t => f :: operandFiles t
+  | .assign _ _ :: t => operandFiles t
+
+def operandPend : Operand → Pend
+  | .file f => .file f.name (splitRecords f.content)
+  | .assign x v => .assign x v
+
+/-- `-v` assignments, in order -/
+def applyVars : List (String × String) → St → St
+  | [], s => s
+  | (x, v) :: t, s => applyVars t (assignGlobal x v s)
+
+/-- initial state: `-F` and the `-v` assignments are in effect before the first BEGIN action; the operands are pending
+(assignments among them are NOT yet carried out); standard input is read when no operand names a file -/
+def initStateInv (p : Prog) (inv : Invocation) : St :=
+  let base : St :=
+    { funcs := p.funcs
+      globals := [("CONVFMT", .val (.str "%.6g")), ("OFMT", .val (.str "%.6g")),
+                  ("RSTART", .val (.num 0)), ("RLENGTH", .val (.num (-1)))]
+      fs := inv.fsOpt.getD " "
+      pending := if (operandFiles inv.operands).isEmpty
+                 then inv.operands.map operandPend ++ [.file "-" (splitRecords inv.stdin)]
+                 else inv.operands.map operandPend
+      fsys := operandFiles inv.operands ++ inv.extra
+      ranges := List.replicate p.rules.length false }
+  applyVars inv.vars base
+
+def runInv (fuel : Nat) (p : Prog) (inv : Invocation) : Except Err Outcome :=
+  let s0 := initStateInv p inv
   let mainPhase : M Unit :=
     if p.rules.isEmpty && p.ends.isEmpty then pure ()
     else mainLoop fuel p.rules (totalRecords s0.pending + 1)
   match drive (runActions fuel p.begins) mainPhase (runActions fuel p.ends) s0 with
   | .error e => .error e
-  | .ok (s, status) => .ok { stdout := s.out, status := (status % 256).toNat, files := s.outFiles }
+  | .ok (s, status) =>
+    if s.fault then .error (.outside "command-line assignment outside the profile")
+    else .ok { stdout := s.out, status := (status % 256).toNat, files := s.outFiles }
+
+/-- the plain form: files only -/
+def initState (p : Prog) (files : List File) (stdin : String) (extra : List File) : St :=
+  initStateInv p { operands := files.map .file, stdin := stdin, extra := extra }
+
+def runWith (fuel : Nat) (p : Prog) (files : List File) (stdin : String) (extra : List File) :
+    Except Err Outcome :=
+  runInv fuel p { operands := files.map .file, stdin := stdin, extra := extra }
 
 def defaultFuel : Nat := 100000
 
